@@ -434,6 +434,13 @@ JS == INSTANCE JobSys WITH
         ctxAtCall <- ctxAtClose,
         wait <- IF cpc <= nJ + 1 THEN "open" ELSE IF cpc = nJ + 2 THEN "called" ELSE "returned",
         res <- cres
+\* ... and of the counter arithmetic that Apalache proves inductive for unbounded sizes (SchedCounters.tla)
+NRecv == Cardinality({j \in AJobs : j < cpc /\ j \notin RangeOf(enq)})
+NRecvDeps == Cardinality({j \in AJobs : j < cpc /\ j \notin RangeOf(enq) /\ deps[j] # <<>>})
+SC == INSTANCE SchedCounters WITH N <- nW, pending <- pending, rdy <- Len(ready), waiting <- waiting,
+                                  ongoing <- ongoing, sub <- NRecv, subdeps <- NRecvDeps
+RefinesCounters == SC!CInit /\ [][SC!CNext]_(SC!cvars)
+
 JSNext == \/ \E j \in Jobs : JS!Submit(j) \/ JS!Start(j) \/ \E o \in {"ok", "err", "exit"} : JS!End(j, o)
           \/ \E j \in Jobs : JS!EndCancel(j)
           \/ JS!CancelNow \/ JS!Cancel2Now \/ JS!WaitCall \/ JS!WaitReturn(cres')
